@@ -48,7 +48,7 @@ func lsRemotePart(c *vf.Ctx, g *gitx.Git) {
 	stub := filepath.Join(c.Scratch, "stub-upload-pack.sh")
 	c.Must(os.WriteFile(stub, []byte("#!/bin/sh\ncat \"$C35_ADV\"\ncat >/dev/null\n"), 0o755), "write stub")
 	dir := c.TempDir("lsremote")
-	n := c.N(90, 1500)
+	n := c.N(60, 400)
 	vf.Parallel(n, 6, func(i int) {
 		m := genAdv(c.Rand("adv-git", i), false)
 		v := m.value()
@@ -231,7 +231,7 @@ func readSection(b []byte) (lines [][]byte, rest []byte, err error) {
 // ---------- (b) git receive-pack applies go-git's update request ----------
 
 func receivePackPart(c *vf.Ctx, g *gitx.Git, tmpl string, commits []string) {
-	n := c.N(40, 600)
+	n := c.N(25, 150)
 	const workers = 5
 	repos := make(chan string, workers)
 	for w := 0; w < workers; w++ {
@@ -417,7 +417,7 @@ func receivePackPart(c *vf.Ctx, g *gitx.Git, tmpl string, commits []string) {
 // ---------- (c) git upload-pack answers go-git's upload request ----------
 
 func uploadPackPart(c *vf.Ctx, g *gitx.Git, tmpl string, commits []string) {
-	n := c.N(40, 600)
+	n := c.N(30, 150)
 	repo := filepath.Join(c.Scratch, "upload.git")
 	if err := gitx.CopyDir(tmpl, repo); err != nil {
 		c.Broken("copy template: %v", err)
